@@ -1892,6 +1892,15 @@ func (sc *serverConn) flushStreams(strms Streams, closeStream func(*Stream)) {
 func (sc *serverConn) sendPingAndSchedule() {
 	sc.writePing()
 
+	// Stop does not wait for a callback that is already running, and this is
+	// one: arming the timer again after the connection has been torn down
+	// keeps it firing, and this connection alive, for good.
+	select {
+	case <-sc.writeStop:
+		return
+	default:
+	}
+
 	sc.pingTimer.Reset(sc.pingInterval)
 }
 
